@@ -86,7 +86,47 @@ def _straight(fn, env):
     return h
 
 
+def _decimal_cells(ctx):
+    """Binary helpers of Magnitude take the exact (Decimal) path when either operand is a Decimal; the other path applies
+    the float operator to both values and raises TypeError for a float next to a Decimal.  The guard is folded over the
+    four (left is Decimal, right is Decimal) cells: it has to be true in the three cells that contain a Decimal."""
+    from ..flowexpr import truth
+    MGF = "src/scinumtools/units/magnitude.py"
+    c = ctx.repo.cls(MGF, "Magnitude")
+    n = 0
+    for mname, fn in methods(c).items():
+        if len(fn.args.args) != 3:
+            continue
+        _, a, b = (x.arg for x in fn.args.args)
+        for i in [x for x in ast.walk(fn) if isinstance(x, ast.If) and "Decimal" in norm(x.test)]:
+            n += 1
+            what = "the exact path is taken when either operand is a Decimal (a float next to a Decimal is not multiplied as floats)"
+            cells, und = {}, False
+            for la in (True, False):
+                for rb in (True, False):
+                    def atom(e, la=la, rb=rb):
+                        if isinstance(e, ast.Call) and norm(e.func) == "isinstance" and len(e.args) == 2 and norm(e.args[0]) in (f"{a}.value", f"{b}.value"):
+                            ts = e.args[1].elts if isinstance(e.args[1], ast.Tuple) else [e.args[1]]
+                            if all(norm(t) == "Decimal" for t in ts):
+                                return la if norm(e.args[0]) == f"{a}.value" else rb
+                        return None
+                    v = truth(i.test, atom)
+                    if v is None:
+                        und = True
+                    cells[f"left {'Decimal' if la else 'float'}, right {'Decimal' if rb else 'float'}"] = v
+            if und:
+                ctx.form(False, MGF, f"Magnitude.{mname}", what, detail=norm(i.test))
+                continue
+            bad = {k: v for k, v in cells.items() if ("Decimal" in k) != v}
+            if bad:
+                ctx.violated(MGF, f"Magnitude.{mname}", what, detail={norm(i.test): bad}, expected=f"isinstance({a}.value, Decimal) or isinstance({b}.value, Decimal)")
+            else:
+                ctx.holds(MGF, f"Magnitude.{mname}", what, detail=norm(i.test))
+    ctx.floor("Decimal guards of Magnitude's binary helpers", n, 4, file=MGF)
+
+
 def r2_shapes(ctx):
+    _decimal_cells(ctx)
     lm, rm, lb, rb = (Term.sym(x) for x in ("lm", "rm", "lb", "rb"))
     env = {"left.magnitude": lm, "right.magnitude": rm, "left.baseunits": lb, "right.baseunits": rb}
     for name, wm, wb in (("_mul", lm * rm, lb + rb), ("_truediv", lm / rm, lb - rb)):
@@ -311,6 +351,7 @@ def r3_exponents(ctx):
 
 
 def r5_values(ctx):
+    K.conversion_roles(ctx)          # the converted number and its source units come from the same object (shared)
     C08.r2_sum_rule(ctx)
     l, r = Term.sym("l"), Term.sym("r")
     for m, w in (("_mul", l * r), ("_truediv", l / r)):
